@@ -46,6 +46,7 @@ package kvql
 //
 //@ func (p *FullScanPlan) Next(ctx *ExecuteCtx) (key []byte, value []byte, err error)
 //@   props C01 C13 C05
+//@   ensures[C13] norows: err != nil ==> isnil(key) && isnil(value)
 //@   requires[C05] c5: wfCtx(ctx) && wfRefs()
 //@   ensures[C05] coherent: err == nil && !isnil(key) ==> coherent(ctx, val(key), val(value))
 //@   ghost m Int
@@ -83,6 +84,7 @@ package kvql
 //
 //@ func (p *PrefixScanPlan) Next(ctx *ExecuteCtx) (key []byte, value []byte, err error)
 //@   props C01 C13 C18 C05
+//@   ensures[C13] norows: err != nil ==> isnil(key) && isnil(value)
 //@   requires[C05] c5: wfCtx(ctx) && wfRefs()
 //@   ensures[C05] coherent: err == nil && !isnil(key) ==> coherent(ctx, val(key), val(value))
 //@   ghost m Int
@@ -117,6 +119,7 @@ package kvql
 //
 //@ func (p *RangeScanPlan) Next(ctx *ExecuteCtx) (key []byte, value []byte, err error)
 //@   props C01 C13 C18 C05
+//@   ensures[C13] norows: err != nil ==> isnil(key) && isnil(value)
 //@   requires[C05] c5: wfCtx(ctx) && wfRefs()
 //@   ensures[C05] coherent: err == nil && !isnil(key) ==> coherent(ctx, val(key), val(value))
 //@   ghost m Int
@@ -146,6 +149,7 @@ package kvql
 //
 //@ func (p *MultiGetPlan) Next(ctx *ExecuteCtx) (key []byte, value []byte, err error)
 //@   props C01 C13 C18 C05
+//@   ensures[C13] norows: err != nil ==> isnil(key) && isnil(value)
 //@   requires[C05] c5: wfCtx(ctx) && wfRefs()
 //@   ensures[C05] coherent: err == nil && !isnil(key) ==> coherent(ctx, val(key), val(value))
 //@   ghost m Int
@@ -173,6 +177,7 @@ package kvql
 //
 //@ func (p *EmptyResultPlan) Next(ctx *ExecuteCtx) (key []byte, value []byte, err error)
 //@   props C13 C18 C05
+//@   ensures[C13] norows: err != nil ==> isnil(key) && isnil(value)
 //@   ensures[C05] coherent: err == nil && !isnil(key) ==> coherent(ctx, val(key), val(value))
 //@   assigns nothing
 //@   ensures[C18] noread: err == nil && isnil(key) && isnil(value) && nops == old(nops)
